@@ -360,7 +360,7 @@ mod spec_defaults {
 /// is left untouched". Each sample is encoded by the crate, its outer described list is re-written in EVERY valid width (list8 <-> list32; list0
 /// stays), a marker value is appended, and the bytes are decoded from a slice and from a stream: the value must be the sample, the marker must follow.
 mod composite_variants {
-    use fe2o3_amqp::types::{definitions::{self, Role}, messaging::{Accepted, Released, Rejected, Modified, Received, Header, Properties, ApplicationProperties, Data, AmqpValue, DeliveryState, Outcome, Source, Target},
+    use fe2o3_amqp::types::{definitions::{self, Role}, messaging::{Accepted, Released, Rejected, Modified, Received, Header, Properties, ApplicationProperties, Data, AmqpValue, DeliveryState, Outcome, Source, Target, MessageId},
         performatives::{Begin, Close, Detach, Disposition, End, Flow, Open, Transfer}};
     use serde_amqp::{to_vec, primitives::{Binary, Symbol}, Value, serde::{de::DeserializeOwned, Deserialize, Serialize}};
     /// (descriptor length, list constructor offset) of `00 <descriptor> <list>`; None if the bytes are not a described list
@@ -460,6 +460,20 @@ mod composite_variants {
             t!(Source { address: Some("a".repeat(n)), ..Default::default() });
             t!(Target { address: Some("a".repeat(n)), ..Default::default() });
         }
+        // every variant of the restricted / enumerated field types, with contents on both sides of the 255-octet width boundary
+        for n in [0usize, 1, 127, 128, 254, 255, 256, 300] {
+            t!(Properties { message_id: Some(MessageId::String("m".repeat(n))), correlation_id: Some(MessageId::String("\u{e9}".repeat(n / 2))), ..Default::default() });
+            t!(Properties { message_id: Some(MessageId::Binary(Binary::from(vec![3u8; n]))), content_type: Some(Symbol::from("t".repeat(n))), ..Default::default() });
+            t!(Properties { to: Some("a".repeat(n)), reply_to: Some("r".repeat(n)), group_id: Some("g".repeat(n)), content_encoding: Some(Symbol::from("e".repeat(n))), ..Default::default() });
+            t!(Close { error: Some(definitions::Error::new(definitions::ErrorCondition::Custom(Symbol::from("com.example:".to_string() + &"c".repeat(n))), Some("d".repeat(n)), None)) });
+        }
+        t!(Properties { message_id: Some(MessageId::Ulong(0)), correlation_id: Some(MessageId::Ulong(5_000_000_000)), ..Default::default() });
+        t!(Properties { message_id: Some(MessageId::Uuid(serde_amqp::primitives::Uuid::from([7u8; 16]))), group_sequence: Some(9), ..Default::default() });
+        t!(Properties { absolute_expiry_time: Some(serde_amqp::primitives::Timestamp::from(1)), creation_time: Some(serde_amqp::primitives::Timestamp::from(-1)), ..Default::default() });
+        t!(End { error: Some(definitions::Error::new(definitions::ErrorCondition::Custom(Symbol::from("com.example:maintenance")), None, None)) });
+        t!(Detach { handle: 0u32.into(), closed: true, error: Some(definitions::Error::new(definitions::SessionError::WindowViolation, None, None)) });
+        t!(Close { error: Some(definitions::Error::new(definitions::ConnectionError::FramingError, Some("f".into()), None)) });
+        t!(Detach { handle: 0u32.into(), closed: true, error: Some(definitions::Error::new(definitions::LinkError::TransferLimitExceeded, None, None)) });
         t!(Data(Binary::from(vec![1u8; 3]))); t!(AmqpValue(Value::String("s".repeat(300)))); t!(AmqpValue(Value::Symbol(Symbol::from("x"))));
         t!(ApplicationProperties::default());
         None
